@@ -44,6 +44,12 @@ K_FLAT = clause(W + 'Combination.__init__', 'post:flattened', ['C13'], 'P')
 K_SIG = clause(W + 'Combination.get_signature', 'post:merge_of_parts', ['C13', 'C01'], 'P')
 F_FWD = clause(W + '_Wrapped._sigtools__forger', 'post:forwards', ['C13', 'C04'], 'P')
 L_ORDER = clause(W + 'wrappers', 'post:outermost_first', ['C13'], 'P')
+FW = 'specifiers._ForgerWrapper'
+FW_STATE = clause(FW + '.__init__', 'post:state', ['C04'], 'P',
+                  'WHATEVER the wrapped object carries in its __dict__ (it may itself be a _ForgerWrapper): __wrapped__ is the object, _signature_forger is '
+                  'the forger given, _transformed is False, and the instance dict holds neither __signature__ nor _sigtools__forger')
+FW_FORGER = clause(FW + '._sigtools__forger', 'post:delegates', ['C04'], 'P', '= the declared forger called with obj=<the wrapped object>')
+FW_CALL = clause(FW + '.__call__', 'post:transparent', ['C04', 'C13'], 'P')
 
 
 class Recorder(SymCallable):
@@ -150,6 +156,38 @@ def make_runner(mode, cls='_SimpleWrapped', nargs=1, nkeys=1, nfuncs=2, depth=2,
                     return bound
                 I.call_hooks['_util:safe_get'] = sg
                 harness.run_unit(I, I.getattr_(w, '__get__'), [inst, owner], [], r)
+        elif mode == 'forger_wrapper':
+            spm = I.module('sigtools.specifiers')
+            C = spm.ns['_ForgerWrapper']
+            inner_forger = Opaque('the forger of an earlier declaration')
+            obj = SymObj('declared_on', 'function', slots={
+                '__signature__': Slot(z3.Bool('inst_obj_signature'), False, Opaque('a signature'), None),
+                '_sigtools__forger': Slot(z3.Bool('inst_obj_forger'), False, Opaque('a forger attribute'), None),
+                '_signature_forger': Slot(z3.Bool('obj_is_itself_a_forger_wrapper'), False, inner_forger, None),
+                '_transformed': Slot(z3.Bool('obj_is_itself_a_forger_wrapper'), False, True, None),
+                '__wrapped__': Slot(z3.Bool('inst_obj_wrapped'), False, Opaque('what obj wraps'), None)})
+            forger = Recorder('declared_forger')
+            env.update(obj=obj, forger=forger)
+            try:
+                w = I.instantiate(C, [obj, forger], [])
+            except PyExc as e:
+                r.outcome, r.exc = 'raise', e
+                env['stage'] = 'init'
+                return
+            env['w'] = w
+            args, keys, vals = mk_args(ctx, nargs, nkeys)
+            env.update(args=args, keys=keys, vals=vals)
+            calls = env['inner_calls'] = []
+            obj.defaults['__call__'] = None
+
+            class CallableObj:
+                pass
+            env['state_after_init'] = dict(w._d)
+            try:
+                env['forged'] = I.call(I.getattr_(w, '_sigtools__forger'), [Opaque('whatever object the protocol passes')], [])
+                r.outcome, r.value = 'return', w
+            except PyExc as e:
+                r.outcome, r.exc = 'raise', e
         elif mode == 'combination':
             fs = [Recorder('f%d' % i) for i in range(nfuncs)]
             env['fs'] = fs
@@ -264,6 +302,24 @@ def vcs(env, want):
                 ok = d.get('__wrapped__') is env['bound'] and d.get('wrapper') is wrapper and sga is not None and \
                     sga[0] is env['wrapped'] and sga[1] is env['inst'] and sga[2] is env['owner']
             out.append(VC(c.full, [], z3.BoolVal(bool(ok)), c.props))
+    elif mode == 'forger_wrapper':
+        if env.get('stage') == 'init':
+            out.append(VC(FW_STATE.full + ':no_exception:' + r.exc.typname, [], z3.BoolVal(False), FW_STATE.props))
+            return out
+        d = env['state_after_init']
+        if on(FW_STATE):
+            ok = d.get('__wrapped__') is env['obj'] and d.get('_signature_forger') is env['forger'] and d.get('_transformed') is False
+            out.append(VC(FW_STATE.full, [], z3.BoolVal(bool(ok)), FW_STATE.props))
+            out.append(VC(FW_STATE.full + ':class_signature_effective', [], z3.BoolVal('__signature__' not in d and '_sigtools__forger' not in d), FW_STATE.props))
+        if on(FW_FORGER):
+            f = env['forger']
+            raised = [e for e in r.ctx.events if e[0] == 'external-raise' and e[1] == f.origin]
+            ok = len(f.calls) == 1 and f.calls[0][0] == [] and len(f.calls[0][1]) == 1 and f.calls[0][1][0][0] == 'obj' and f.calls[0][1][0][1] is env['obj']
+            if r.outcome == 'return':
+                ok = ok and len(f.results) == 1 and env.get('forged') is f.results[0]
+            else:
+                ok = ok and bool(raised) and r.exc is raised[0][2]
+            out.append(VC(FW_FORGER.full, [], z3.BoolVal(bool(ok)), FW_FORGER.props))
     elif mode == 'combination':
         fs = env['fs']
         if on(K_FLAT):
